@@ -629,15 +629,32 @@ def gen_time_at(rnd, desc, aim):
         i = 146760000000 + rnd.randint(0, 30000000)
         if rnd.random() < 0.25:
             i = rnd.choice([1000, 146750000000, 146810000000])
+        guess = None
+        if rnd.random() < 0.5:
+            # real tempo entries are separate fits: a guess in another entry than the answer must not be
+            # extrapolated (the iteration has to follow the table)
+            gx = rnd.choice(aim.tm) + F(rnd.randint(-40, 40), 1440)   # inside a span of the CURRENT row subset
+            guess = times_arg([aim.mjd_time(gx)])
+            # with a far guess the first Newton step is only good to ~1e-4 of the distance (Doppler drift of
+            # F0 over a day): keep the answer >= 10 % of the table away from its ends so the iteration
+            # never leaves the predictor range (a raise there would be the caller's poor guess, not a defect)
+            i = 146760000000 + rnd.randint(3000000, 27000000)
         return {"op": "time_at", "phi": {"i": i, "f": hx(rnd.choice([0.0, 0.3, 0.5, -0.25, rnd.uniform(-0.5, 0.5)]))},
-                "guess": None}
+                "guess": guess}
     span_d = F(desc["span"], 1440)
     a, b = rnd.choice(aim.merged)
     if rnd.random() < 0.75:
         x = a + span_d / 100 + (b - a - span_d / 50) * F(rnd.randint(0, 10 ** 6), 10 ** 6)
         guess = None
-        if rnd.random() < 0.3:
+        if rnd.random() < 0.5:
             gx = a + span_d / 100 + (b - a - span_d / 50) * F(rnd.randint(0, 10 ** 6), 10 ** 6)
+            # half of the guesses are aimed at a DIFFERENT entry than the answer (one or more spans away,
+            # still inside the same merged interval): the iteration must follow the table, not one entry
+            if rnd.random() < 0.5 and (b - a) > 2 * span_d:
+                for _ in range(20):
+                    gx = a + span_d / 100 + (b - a - span_d / 50) * F(rnd.randint(0, 10 ** 6), 10 ** 6)
+                    if abs(gx - x) > span_d:
+                        break
             guess = times_arg([aim.mjd_time(gx)])
         ph = model_phase(desc, x)
     else:
